@@ -24,6 +24,7 @@ def KLocal (cfg : Cfg) (p : Trace) (e : Ev) (o : List Out) : Prop :=
   | .send => ∃ r k, o = [.sent r k] ∧ outcomes r (outs p) = 0 ∧
       ∀ r' k', Out.sent r' k' ∈ outs p → r' ≠ r ∧ k' ≠ k
   | .burn => o = []
+  | .sendFail => o = [.sendErr]
   | .recv k v => KRecvSpec cfg p k v o
   | .msg kd k v =>
       if cfg.typed then o = [match kd with | .event => .dispatch k v | .other => .drop k v]
@@ -129,6 +130,19 @@ theorem kinv_step_aux (cfg : Cfg) (s : KState) (past : Trace) (e : Ev) (h : KInv
     · simpa [kstep] using hent
     · intro r c hm
       simp only [kstep, outs_snoc, List.append_nil] at hm ⊢
+      have := hsnt r c hm
+      exact ⟨this.1, by omega, this.2.2⟩
+    · simpa [kstep] using hwait
+    · simpa [kstep] using huniq
+    · simpa [kstep] using hfresh
+    · simpa [kstep] using honce
+    · simpa [kstep] using hlive
+    · simp [KLocal, kstep]
+  | sendFail =>
+    refine ⟨?_, ?_, ?_, ?_, ?_, ?_, ?_, good_snoc hgood ?_⟩
+    · simpa [kstep] using hent
+    · intro r c hm
+      simp only [kstep, outs_snoc, List.mem_append, List.mem_singleton, reduceCtorEq, or_false] at hm ⊢
       have := hsnt r c hm
       exact ⟨this.1, by omega, this.2.2⟩
     · simpa [kstep] using hwait
@@ -413,6 +427,7 @@ theorem kinv_step (cfg : Cfg) (s : KState) (past : Trace) (e : Ev) (h : KInv cfg
       simpa [KLocal, hty] using hl
   | send => exact kinv_step_aux cfg s past _ h (by intro _ _ _ hh; cases hh)
   | burn => exact kinv_step_aux cfg s past _ h (by intro _ _ _ hh; cases hh)
+  | sendFail => exact kinv_step_aux cfg s past _ h (by intro _ _ _ hh; cases hh)
   | recv k v => exact kinv_step_aux cfg s past _ h (by intro _ _ _ hh; cases hh)
   | timeout r => exact kinv_step_aux cfg s past _ h (by intro _ _ _ hh; cases hh)
 
